@@ -181,3 +181,43 @@ func ZZC03Parser() {
 	zzCheckParse(src, what)
 	zzWitness("end")
 }
+
+// zzLexemes: the alphabet of the token-sequence harness. Every keyword, every
+// bracket and operator class, a declared variable of array type (so that
+// index, slice and dot expressions reach the type checker), an undeclared
+// name, a function, an event name, literals, a comment and the newline.
+var zzLexemes = []string{
+	"x", "\n", "1", ":=", "[", "]", "(", ")", "func", "end", "if", "=", ":", "num", "\"s\"", ".", "-", "for", "range", "on",
+	"{", "}", "print", "+", "else", "while", "return", "break", "!", "==", "and", "[]", "...", "//c", "any", "key", "y", "<", "{}", "f", "_", "*", "or", "true",
+}
+
+// ZZC03Tokens: every sequence of up to L lexemes of the alphabet, each glued
+// to its predecessor or separated by one blank (the parser is whitespace
+// sensitive), after a preamble that declares the names the lexemes use.
+func ZZC03Tokens() {
+	L := zzParam("L", 3)
+	A := zzParam("A", len(zzLexemes))
+	if A > len(zzLexemes) {
+		A = len(zzLexemes)
+	}
+	pre := []string{"", "x := [1]\nfunc f:num a:num\n    return a\nend\n"}[zzChoice("pre", 2)]
+	n := 1 + zzChoice("len", L)
+	src := pre
+	what := ""
+	for k := 0; k < n; k++ {
+		lx := zzLexemes[zzChoice("lx", A)]
+		if k > 0 && lx != "\n" && zzChoice("glue", 2) == 0 {
+			src += " "
+		}
+		src += lx
+		what += lx + " "
+	}
+	if zzChoice("nl", 2) == 1 {
+		src += "\n"
+	}
+	if !zzSymbolic() {
+		zzLog("input:\n" + src)
+	}
+	zzCheckParse(src, "tokens")
+	zzWitness("end")
+}
